@@ -1,7 +1,9 @@
 package app_test
 
 // Minimal histories against the REAL incentives + lockup + protorev + pool keepers for the minimum-value filter of
-// distributeInternal (known findings F61, F62) and for deposits into a gauge of the finished store (F63).
+// distributeInternal (former findings F61, F62) and for deposits into a gauge of the finished store (former F20/F63).
+// Since the repository fixes af3cbe6371 / d4c28ad126 / 21bb9c1bc7 the chain does what the property promises in every one of them
+// (on a tree without the fixes: A1 pays the first lock only, A2 fails the hook, B strands the deposit).
 // Not part of ./check; run with
 //   VERIF_WITNESS=1 .bin/app.test -test.run TestC09MinValueWitness -test.v
 // Each sub-history prints what the chain did next to what the property promises.
@@ -153,10 +155,10 @@ func TestC09MinValueWitness(t *testing.T) {
 		gauge(true, "lpa", sdk.NewCoins(coin("rewx", 3000)), 1)
 		gauge(true, "lpb", sdk.NewCoins(coin(base, 5_000_000)), 1) // an unrelated gauge paying the base denom
 		err := epoch()
-		t.Logf("A2 (balancer route, minimum 10000%s quotes %s): err=%v; received rewx%s (property: 1000 each), %s%s (property: A +5000000); active gauges=%d upcoming=%d",
+		t.Logf("A2 (balancer route, minimum 10000%s quotes %s): err=%v; received rewx%s (cannot be valued: nothing), %s%s (property: A +5000000); active gauges=%d upcoming=%d",
 			base, quote(pid, coin(base, 10000), "rewx"), err, bal("rewx"), base, bal(base), len(h.App.IncentivesKeeper.GetActiveGauges(h.Ctx)), len(h.App.IncentivesKeeper.GetUpcomingGauges(h.Ctx)))
 		err = epoch()
-		t.Logf("A2 next epoch: err=%v (the hook fails every epoch while the gauge is there)", err)
+		t.Logf("A2 next epoch: err=%v (before d4c28ad126 the hook failed every epoch while the gauge was there)", err)
 	}
 	// (A3) MinValueForDistribution = 0: the quote of a zero input
 	{
@@ -167,7 +169,7 @@ func TestC09MinValueWitness(t *testing.T) {
 		}
 		gauge(true, "lpa", sdk.NewCoins(coin("rewx", 3000)), 1)
 		err := epoch()
-		t.Logf("A3 (balancer route 1:2, minimum 0%s quotes %s): err=%v received rewx%s (property: 1000 each)", base, quote(pid, coin(base, 0), "rewx"), err, bal("rewx"))
+		t.Logf("A3 (balancer route 1:2, minimum 0%s quotes %s): err=%v received rewx%s (cannot be valued: nothing)", base, quote(pid, coin(base, 0), "rewx"), err, bal("rewx"))
 		setup(0)
 		pid = clPool("rewx", 2_000_000, 1_000_000)
 		for i := range owners {
